@@ -10,6 +10,14 @@ CLAIMED = {
          "Theorems in coq/theories/Props/C01.v quantify over every well-formed level layout, FAB, offset and selector; the extracted model is run against PlotfileCooker on generated plotfiles and every selector form, with an independent numpy oracle deciding the property on disagreement.",
          "Trusts the Coq kernel, extraction (ExtrOcamlBasic/ExtrOcamlString), driver.ml, the Python harness, and that numpy/Python primitives behave as modelled; see DESIGN.md section 6.",
          "DESIGN.md section 3 C01"),
+ 'C02': ("Coq proof (print/parse round trip of the Header and Cell_H parsers, level-limit semantics, field-key renaming) + correspondence",
+         "Theorems in Props/C02.v: for every well-formed header record, opening with any admissible limit returns exactly the record restricted to levels 0..limit, a limit above the finest level is refused, level headers round-trip with and without min/max tables, field keys are distinct and in header order. The printed text is what the implementation reads; PlotfileCooker attributes are compared with the model's parse and an independent oracle.",
+         "Line/token text model (tokens whitespace-free); float tokens opaque (float_ok recogniser); np.linspace grids checked numerically, not proved.",
+         "DESIGN.md section 3 C02"),
+ 'C15': ("Coq proof (sequential file scan complete and terminating, files partition the level, permutation theorem for the chained iterator) + correspondence under 4 completion orders",
+         "Theorems in Props/C15.v: the scan of encode_file fs returns the specified read of every FAB in order and stops; iterating a well-formed level yields a permutation of the per-box reads for every layout; iter(selection) = indexing interface. Implementation iterated under identity/reverse/random/rotated task orders of a controlled pool and compared with the model sequence and the multiset oracle.",
+         "multiprocessing.imap ordering guarantee is modelled by the controlled pool, not verified; np.unique = sorted dedup.",
+         "DESIGN.md section 3 C15"),
 }
 PENDING_REASON = "check not built yet in this round (model and theorems planned in DESIGN.md section 3); not claimed until its check runs"
 
